@@ -130,12 +130,15 @@ def _rxn(env, name, vals):
     return mode, d
 
 
-def _setup(env, kernels_spec, nctrl):
+def _setup(env, kernels_spec, nctrl, default_noise=None):
     tr, st = env.m.train, env.m.settings
+    # the documented noise of a reaction is built from the value *given* to the constructor (kept aside), not from what the object stored
+    dn = env.par("default_noise", "pos", lo="1/64", hi="1") if default_noise is None else default_noise
     systems, orbs = ["A", "B"], ["h"]
     kernels = [_Kernel(env, "%s%d" % (c, i), c, nctrl, systems, orbs) for i, c in enumerate(kernels_spec)]
     settings = object.__new__(st.FeatureSettings)
-    gp = tr.MOLGP(kernels, settings, default_noise=env.par("default_noise", "pos", lo="1/64", hi="1"))
+    gp = tr.MOLGP(kernels, settings, default_noise=dn)
+    gp._given_default_noise = dn
     gp.numerical_epsilon = env.par("eps", "nonneg", hi="1/1024")
     gp.exx_ref_dict = {s: env.par("exx_%s" % s, lo="-2", hi="2") for s in systems}
     gp.dexx_ref_dict = {s: {o: env.par("dexx_%s_%s" % (s, o), lo="-2", hi="2") for o in orbs} for s in systems}
@@ -176,9 +179,9 @@ def _doc_label_noise_cov(env, gp, kernels, mode, rxn):
     if rxn.get("noise") is not None:
         noise = rxn["noise"]
     elif rxn.get("noise_factor") is not None:
-        noise = rxn["noise_factor"] * gp.default_noise
+        noise = rxn["noise_factor"] * gp._given_default_noise
     else:
-        noise = gp.default_noise
+        noise = gp._given_default_noise + env.const(0)
     if rxn.get("noise_rel_factor") is not None:
         noise = noise + rxn["noise_rel_factor"] * abs(ref)
     if rxn.get("weight") is not None:
@@ -186,9 +189,10 @@ def _doc_label_noise_cov(env, gp, kernels, mode, rxn):
     return ref, noise, covs
 
 
-def h_labels(env, kernels_spec, names):
-    """add_reactions: labels, noises and covariance rows are the documented combinations; reset + re-add reproduces them"""
-    tr, gp, kernels, vals = _setup(env, kernels_spec, 2)
+def h_labels(env, kernels_spec, names, default_noise=None):
+    """add_reactions: labels, noises and covariance rows are the documented combinations; reset + re-add reproduces them.
+    default_noise: None = symbolic positive; a number = that constructor argument (0 = reactions without their own noise are exact)"""
+    tr, gp, kernels, vals = _setup(env, kernels_spec, 2, default_noise)
     env.eps_zero()
     rl = [_rxn(env, n, vals) for n in names]
     # mode-2 reactions with orbital entries index ks_baseline_dict by the tuple: only plain systems are used with mode 2 here
@@ -496,6 +500,7 @@ def tasks(tier):
     out = []
     out.append(Task("labels/x/x_plain+x_orb", h_labels, dict(kernels_spec=("x",), names=("x_plain", "x_orb")), mods="train"))
     out.append(Task("labels/x+c/all_modes", h_labels, dict(kernels_spec=("x", "c"), names=("x_plain", "xc_plain", "xc_default_unit", "x_weight")), mods="train"))
+    out.append(Task("labels/x+c/all_modes/default_noise_zero", h_labels, dict(kernels_spec=("x", "c"), names=("x_plain", "xc_plain", "xc_default_unit", "x_weight"), default_noise=0.0), mods="train"))
     out.append(Task("labels/x+c/rel_noise", h_labels, dict(kernels_spec=("x", "c"), names=("xc_rel", "x_orb")), mods="train"))
     out.append(Task("labels/x+c/repeated_systems", h_labels, dict(kernels_spec=("x", "c"), names=("x_dup", "xc_dup")), mods="train"))
     out.append(Task("labels/xc_orbital_entry", h_xc_orbital_entry, {}, mods="train"))
@@ -535,7 +540,7 @@ def prepare(tier):
 META = dict(
     explanation="MOLGP.add_reactions/reset_reactions/fit/compute_likelihood executed symbolically on duck-typed kernels with symbolic state; the oracle never inverts: "
                 "the solved weights are substituted into the documented linear equations and the polynomial normal form / z3 decide the identities",
-    functions=['ciderpress/models/train.py: _compute_mol_covs with two orbital entries (mol_covs/*/two_orbital_entries)', "ciderpress/models/dft_kernel.py: DFTKernel.set_control_points / get_kctrl (kmm/*: symmetry, documented spin combination, spin-exchange invariance)",
+    functions=['ciderpress/models/train.py: MOLGP.__init__(default_noise=0) + add_reactions (labels/*/default_noise_zero)', 'ciderpress/models/train.py: _compute_mol_covs with two orbital entries (mol_covs/*/two_orbital_entries)', "ciderpress/models/dft_kernel.py: DFTKernel.set_control_points / get_kctrl (kmm/*: symmetry, documented spin combination, spin-exchange invariance)",
                "ciderpress/models/train.py: MOLGP.__init__, reset_reactions, add_reactions, fit, compute_likelihood, _compute_mol_covs (load_data stubbed with symbolic arrays), strk_to_tuplek"],
     bounds=dict(control_points="1-2 per kernel", kernels="1-2 (x, c, xc components)", reactions="1-3 with 1-2 systems each, plain and orbital-derivative entries, modes 0 and 2",
                 options="noise / noise_factor / noise_rel_factor / weight / default unit", epsilon="numerical_epsilon symbolic >= 0 (the documented formula is the eps = 0 instance)"),
